@@ -46,6 +46,7 @@ class Src:
     def __init__(self, n, throw_at=None, throw_times=1):
         self.n = n
         self.count = {}
+        self.throws = {}
         self.throw_at = throw_at
         self.throw_left = throw_times
         self.hook = None  # called inside every producer (scheduling point / self-touch)
@@ -59,6 +60,7 @@ class Src:
             self.hook(i)
         if self.throw_at == i and self.throw_left > 0:
             self.throw_left -= 1
+            self.throws[i] = self.throws.get(i, 0) + 1
             raise Boom(i)
 
     @property
@@ -83,9 +85,31 @@ def chain(src, i=0):
     return lseq.LazySeq(gen)
 
 
-def build(kind, n):
-    """-> (seq, src, expected elements (list or None for infinite), demand_fn: position -> highest source index needed to know cell p)"""
+class ClassIter:
+    """a Python iterator that is NOT a generator: a producer that throws leaves it usable (a generator would be finished for
+    good by the exception, which is Python's rule, not basilisp's)"""
+
+    def __init__(self, s):
+        self.s, self.i = s, 0
+
+    def __iter__(self):
+        return self
+
+    def __next__(self):
+        s = self.s
+        s.produce(self.i)
+        if s.n is not None and self.i >= s.n:
+            raise StopIteration
+        self.i += 1
+        return s.elem(self.i - 1)
+
+
+def build(kind, n, throw=None):
+    """-> (seq, src, expected elements (list or None for infinite), demand_fn: position -> highest source index needed to know cell p)
+    throw = (source index whose producer throws, how many times) or None"""
     core = env.core_fn
+    if throw is not None:
+        return _build_throwing(kind, n, throw)
     if kind == "chain":
         s = Src(n)
         return chain(s), s, _els(n), lambda p: p
@@ -134,6 +158,57 @@ def build(kind, n):
     raise ValueError(kind)
 
 
+def _build_throwing(kind, n, throw):
+    core = env.core_fn
+    s = Src(n, throw_at=throw[0], throw_times=throw[1])
+    if kind == "chain":
+        return chain(s), s, _els(n), lambda p: p
+    if kind == "map":
+        return core("map")(lambda x: ("m", x), chain(s)), s, [("m", e) for e in _els(n)] if n is not None else None, lambda p: p
+    if kind == "filter":
+        exp = [e for e in _els(n) if e[1] % 2 == 1] if n is not None else None
+        return core("filter")(lambda x: x[1] % 2 == 1, chain(s)), s, exp, lambda p: 2 * p + 1
+    if kind == "concat":
+        return core("concat")(chain(s), chain(Src(1))), s, (_els(n) + [("e", 0)]) if n is not None else None, lambda p: p
+    if kind == "concat2":
+        # the throwing producer is in the SECOND part; the first part is a one-element vector: position p needs index p-1 of s
+        from basilisp.lang import vector as vec
+
+        return core("concat")(vec.v(("v", 0)), chain(s)), s, ([("v", 0)] + _els(n)) if n is not None else None, lambda p: p - 1
+    if kind == "mapcat":
+        # (mapcat (fn [x] [x x]) chain): position p needs source index p // 2
+        from basilisp.lang import vector as vec
+
+        exp = [e for e in _els(n) for _ in (0, 1)] if n is not None else None
+        from basilisp.lang import seq as lseq
+
+        # mapcat is `apply concat`, which looks at the head of its argument when called: defer the call itself
+        return lseq.LazySeq(lambda: core("mapcat")(lambda x: vec.v(x, x), chain(s))), s, exp, None
+    if kind == "pyiter":
+        return core("iterator-seq")(ClassIter(s)), s, _els(n), lambda p: p
+    if kind == "iterate":
+        s.n = None
+
+        def f(x):
+            s.produce(x[1] + 1)
+            return ("e", x[1] + 1)
+
+        s.count[0] = 1
+        return core("iterate")(f, ("e", 0)), s, None, lambda p: p
+    if kind == "take-drop":
+        exp = _els(n)[1:3] if n is not None else [("e", 1), ("e", 2)]
+        return core("take")(2, core("drop")(1, chain(s))), s, exp, lambda p: p + 1
+    raise ValueError(kind)
+
+
+THROW_KINDS = ["chain", "map", "filter", "concat", "concat2", "mapcat", "pyiter", "iterate", "take-drop"]
+
+
+def op_demand(op, p):
+    """highest position an operation applied at position p may have to know (None: none / everything)"""
+    return {"first": p, "rest": p, "next": p + 1, "seq": p, "nth1": p + 1, "take2": p + 1, "iter2": p + 1}.get(op)
+
+
 def _els(n):
     return [("e", i) for i in range(n)] if n is not None else None
 
@@ -177,12 +252,17 @@ def apply_op(op, h):
     raise ValueError(op)
 
 
-def run_history(kind, n, hist, res):
-    """hist: list of (handle_index, op). Re-built from scratch (live lazy seqs do not copy)."""
-    s, src, exp, need = build(kind, n)
+def run_history(kind, n, hist, res, throw=None):
+    """hist: list of (handle_index, op). Re-built from scratch (live lazy seqs do not copy).
+    throw = (source index, times): that producer throws Boom that many times.  An operation may then raise Boom (only if it
+    demands a position that needs the throwing producer); an operation that returns must return what the reference sequence
+    holds (a producer that threw may be re-run; the sequence may never end early or change)."""
+    s, src, exp, need = build(kind, n, throw)
     handles = [(s, 0)]
     demanded = -1  # highest *position* whose cell some operation had to know
     case = {"part": 1, "builder": kind, "n": n, "history": [[i, op] for i, op in hist]}
+    if throw is not None:
+        case["throw"] = list(throw)
 
     def elem_at(p):
         if exp is None:  # infinite source
@@ -201,8 +281,24 @@ def run_history(kind, n, hist, res):
         obj, p = h
         if op == "count" and exp is None:
             return False
+        boom = False
         try:
             kind_, payload, dem = apply_op(op, h)
+        except Boom as e:
+            if throw is None:
+                res.fail("operation-raises", case, op=op, exc="Boom", msg=str(e)[:120])
+                return True
+            boom = True
+            d_op = op_demand(op, p)
+            reach = None if (d_op is None or need is None) else need(d_op)
+            if kind == "take-drop" and d_op is not None:
+                reach = min(reach, 2)  # take 2 never looks past source index 2
+            if e.args != (throw[0],) or (reach is not None and reach < throw[0]):
+                res.fail("exception-not-from-a-demanded-producer", case, op=op, position=p, exc=repr(e), reach=reach)
+                return True
+            kind_, payload, dem = "boom", None, d_op
+            if op in ("rest", "next", "seq"):
+                handles.append(None)  # the handle this operation would have created does not exist
         except Exception as e:  # noqa
             res.fail("operation-raises", case, op=op, exc=type(e).__name__, msg=str(e)[:120])
             return True
@@ -214,7 +310,9 @@ def run_history(kind, n, hist, res):
         if op == "count":
             demanded = 10**6
         ok = True
-        if kind_ == "value":
+        if boom:
+            res.outcomes.add((kind, "boom", op))
+        elif kind_ == "value":
             ok = payload == (elem_at(p) if exists(p) else None)
         elif kind_ == "value-nth":
             ok = payload == (elem_at(p + 1) if exists(p + 1) else "NF")
@@ -238,12 +336,12 @@ def run_history(kind, n, hist, res):
             res.fail("consumer-sees-wrong-elements", case, op=op, position=p, got=repr(payload)[:120])
             return True
         # at most once
-        multi = {i: c for i, c in src.count.items() if c > 1}
+        multi = {i: c for i, c in src.count.items() if c - src.throws.get(i, 0) > 1}
         if multi:
             res.fail("producer-ran-more-than-once", case, counts={str(k): v for k, v in multi.items()})
             return True
         # demand bound: highest source index produced <= index needed for the deepest demanded position
-        if demanded >= 0 or src.high >= 0:
+        if need is not None and (demanded >= 0 or src.high >= 0):
             limit = need(demanded) if demanded >= 0 else -1
             if kind == "iterate":
                 limit = max(limit, 0)
@@ -262,12 +360,21 @@ def part1_shard(args):
     for kind in ["chain", "map", "filter", "concat", "pyiter", "iterate", "take-drop"]:
         ns = [None] if kind == "iterate" else [0, 1, 2, 3, None]
         for n in ns:
-            combos.append((kind, n))
+            combos.append((kind, n, None))
+    # producers that throw: once (a retry succeeds) or every time; at every source index up to the end-of-source probe
+    tdepth = min(depth, 4)
+    for kind in THROW_KINDS:
+        for n in ([3] if kind == "iterate" else [2, 3]):
+            for at in range(0, n + 1):
+                if kind == "iterate" and at == 0:
+                    continue  # element 0 is given, not produced
+                for times in (1, 10**9):
+                    combos.append((kind, n, (at, times)))
     idx = 0
-    for kind, n in combos:
+    for kind, n, throw in combos:
         # breadth-first over histories; a history is extended only if it was applicable
         frontier = [[]]
-        for d in range(depth):
+        for d in range(depth if throw is None else tdepth):
             nxt = []
             for hist in frontier:
                 nh = 1 + sum(1 for _, op in hist if op in ("rest", "next", "seq"))
@@ -280,7 +387,7 @@ def part1_shard(args):
                             nxt.append(h2)
                             continue
                         r0 = Result()
-                        applicable = run_history(kind, n, h2, r0)
+                        applicable = run_history(kind, n, h2, r0, throw)
                         if applicable:
                             res.evaluations += 1
                             res.transitions += r0.transitions
@@ -288,9 +395,10 @@ def part1_shard(args):
                                 res.distinct_count += 1
                             res.failures.extend(r0.failures)
                             res.outcomes.add((kind, bool(r0.failures)))
+                            res.outcomes |= r0.outcomes
                         nxt.append(h2)
-            frontier = nxt if d + 1 < depth else []
-    res.part(f"1/depth<={depth}", builders=len(combos))
+            frontier = nxt if d + 1 < (depth if throw is None else tdepth) else []
+    res.part(f"1/depth<={depth}", builders=len(combos), throwing_builders=sum(1 for c in combos if c[2]), throwing_depth=tdepth)
     return res.compact()
 
 
@@ -577,7 +685,7 @@ def replay(failure):
     case = failure["case"]
     if case["part"] == 1:
         r = Result()
-        run_history(case["builder"], case["n"], [tuple(x) for x in case["history"]], r)
+        run_history(case["builder"], case["n"], [tuple(x) for x in case["history"]], r, tuple(case["throw"]) if case.get("throw") else None)
         for f in r.failures:
             if f["kind"] == failure["kind"]:
                 return f
